@@ -11,6 +11,11 @@ CONSTANTS
   TrailSigs = {}
   MaxTrail = 0
   PanicAborts = FALSE
-INVARIANTS TAtMostOnce TReverseOrder TAtReturn TNothingWhileWaiting
+  RegSplits = {"each"}
+  RegBufs = {"fresh"}
+  RegAfters = {"keep"}
+  RegEmpties = {FALSE}
+  AddAliases = FALSE
+INVARIANTS TAtMostOnce TReverseOrder TAtReturn TRegistered TNothingWhileWaiting
 POSTCONDITION Post
 CHECK_DEADLOCK FALSE
